@@ -80,6 +80,12 @@ impl CheckImpl for C18 {
                         viols.push(to_viol(unit, h, v));
                     }
                 }
+                Err(e) if e.starts_with("INADMISSIBLE") => {
+                    // the layout drawn for this group is rejected by the type's own alloc (e.g. a matrix type
+                    // with a single limb): nothing to serialise
+                    acc.evaluations += 1;
+                    acc.bump("skipped.inadmissible_layout");
+                }
                 Err(e) => crate::driver::harness_error(&format!("C18 group {unit}: {e}")),
             }
         } else {
@@ -100,6 +106,10 @@ impl CheckImpl for C18 {
                                 viols.push(to_viol(unit, &r.history, v));
                             }
                         }
+                    }
+                    Err(e) if e.starts_with("INADMISSIBLE") => {
+                        acc.evaluations += 1;
+                        acc.bump("skipped.inadmissible_layout");
                     }
                     Err(e) => crate::driver::harness_error(&format!("C18 random {idx}: {e}")),
                 }
